@@ -133,7 +133,14 @@ structure Picklist where
   coltype : Coltype
   exclude : Bool
   pickset : List PVal
+  exactRows : Bool := false   -- `preprocess_fn` overridden with the identity (what `to_picklist()` does since cff7217)
 deriving Repr, DecidableEq
+
+/-- `self.preprocess_fn`: the table entry of the column type, unless overridden with the identity.  The override is only
+    ever applied by `to_picklist()`, i.e. to the tuple column type `manifest`; the model honours it for the tuple column
+    types only (where the row path and the signature path look at the same (name, md5) pair) -/
+def Picklist.pre (pl : Picklist) : PreFn :=
+  if pl.exactRows && pl.coltype.isMeta then .pair [] [] else preOf pl.coltype
 
 /-- `_get_sig_attribute` -/
 def sigAttr (ct : Coltype) (s : Sig) : PVal :=
@@ -149,7 +156,7 @@ def Picklist.decide (pl : Picklist) (q : PVal) : Bool :=
 
 /-- `SignaturePicklist.__contains__` (signature path) -/
 def Picklist.hasSig (pl : Picklist) (s : Sig) : Bool :=
-  pl.decide (applyPre (preOf pl.coltype) (sigAttr pl.coltype s))
+  pl.decide (applyPre pl.pre (sigAttr pl.coltype s))
 
 /-- the column `_get_value_for_manifest_row` looks up, before `assert q` and preprocessing -/
 def rowRaw (ct : Coltype) (r : Row) : PVal :=
@@ -159,18 +166,20 @@ def rowRaw (ct : Coltype) (r : Row) : PVal :=
   | .md5short => .s r.md5short
   | .name => .s r.name
 
-/-- `_get_value_for_manifest_row` (row path).  `asserts` = the routine has `assert q` before preprocessing
-    (the variant before fix b86e966; kept as a switch so that the old behaviour stays stated) -/
-def rowValueWith (asserts : Bool) (ct : Coltype) (r : Row) : Except Err PVal :=
+/-- `_get_value_for_manifest_row` (row path) with preprocessing `pre`.  `asserts` = the routine has `assert q` before
+    preprocessing (the variant before fix b86e966; kept as a switch so that the old behaviour stays stated) -/
+def rowValueP (asserts : Bool) (pre : PreFn) (ct : Coltype) (r : Row) : Except Err PVal :=
   if asserts && !(rowRaw ct r).truthy then .error .assertion
-  else .ok (applyPre (preOf ct) (rowRaw ct r))
+  else .ok (applyPre pre (rowRaw ct r))
 
-/-- the routine of the current source: whether it asserts is re-read by the translator -/
+def rowValueWith (asserts : Bool) (ct : Coltype) (r : Row) : Except Err PVal := rowValueP asserts (preOf ct) ct r
+
+/-- the routine of the current source for a picklist that keeps its column type's preprocessing -/
 def rowValue (ct : Coltype) (r : Row) : Except Err PVal := rowValueWith Gen.rowValueAsserts ct r
 
 /-- `SignaturePicklist.matches_manifest_row` -/
 def Picklist.matchesRow (pl : Picklist) (r : Row) : Except Err Bool :=
-  match rowValue pl.coltype r with
+  match rowValueP Gen.rowValueAsserts pl.pre pl.coltype r with
   | .ok q => .ok (pl.decide q)
   | .error e => .error e
 
@@ -180,7 +189,7 @@ def passesAll (pls : List Picklist) (s : Sig) : Bool := pls.all (·.hasSig s)
 /-- the bookkeeping `__contains__` / `matches_manifest_row` keep: `found` = the values that produced a match (it never
     feeds back into a verdict; `sig check -o` reports `pickset - found`) -/
 def Picklist.foundAfter (pl : Picklist) (asked : List Sig) : List PVal :=
-  (asked.map (fun s => applyPre (preOf pl.coltype) (sigAttr pl.coltype s))).filter pl.decide
+  (asked.map (fun s => applyPre pl.pre (sigAttr pl.coltype s))).filter pl.decide
 
 /-- `sig check --output-missing`: the picklist values without a match among the signatures looked at -/
 def Picklist.missingAfter (pl : Picklist) (asked : List Sig) : List PVal :=
@@ -442,11 +451,20 @@ def mapE {α β : Type} (f : α → Except Err β) : List α → Except Err (Lis
       | .error e => .error e
       | .ok ys => .ok (y :: ys)
 
-/-- `CollectionManifest.to_picklist` (coltype `manifest`); id 0 is reserved for these -/
-def toPicklist (rows : List Row) : Except Err Picklist :=
-  match mapE (rowValue .manifest) rows with
-  | .ok vs => .ok { id := 0, coltype := .manifest, exclude := false, pickset := vs.eraseDups }
+/-- `to_picklist()` (coltype `manifest`; id 0 is reserved for these).  `exact` = the method overrides the
+    preprocessing with the identity, so that the picklist holds and compares full (name, md5) pairs (fix cff7217);
+    otherwise (identifier, md5[:8]).  Re-read from the source per manifest class. -/
+def toPicklistWith (exact : Bool) (rows : List Row) : Except Err Picklist :=
+  let pre : PreFn := if exact then .pair [] [] else preOf .manifest
+  match mapE (rowValueP Gen.rowValueAsserts pre .manifest) rows with
+  | .ok vs => .ok { id := 0, coltype := .manifest, exclude := false, pickset := vs.eraseDups, exactRows := exact }
   | .error e => .error e
+
+/-- `CollectionManifest.to_picklist` -/
+def toPicklist (rows : List Row) : Except Err Picklist := toPicklistWith Gen.toPicklistExactCsv rows
+
+/-- `SqliteCollectionManifest.to_picklist` -/
+def toPicklistSql (rows : List Row) : Except Err Picklist := toPicklistWith Gen.toPicklistExactSql rows
 
 inductive Coll where
   | linear (sigs : List Sig)
@@ -476,6 +494,13 @@ def loadViaPicklist (pl : Picklist) (locs : List Nat) (store : Store) : Except E
       | .error e => .error e
       | .ok r => .ok (l ++ r)
 
+/-- `StandaloneManifestIndex._signatures_with_internal`: turn the (selected) rows into a picklist, re-read the files at
+    `locs` through it -/
+def standaloneSignatures (exact : Bool) (rows : List Row) (locs : List Nat) (store : Store) : Except Err (List Sig) :=
+  match toPicklistWith exact rows with
+  | .ok pl => loadViaPicklist pl locs store
+  | .error e => .error e
+
 /-- rows of an SBT manifest after `for picklist in self.picklists: manifest = manifest.select_to_manifest(picklist=picklist)` -/
 def sbtRows (rows : List Row) : List Picklist → Except Err (List Row)
   | [] => .ok rows
@@ -499,18 +524,15 @@ def Coll.signatures : Coll → Except Err (List Sig)
     -- every file of a listed location; keep signatures whose md5 is in the manifest
     .ok ((locations rows).flatMap (fun loc => (store.load loc).filter (fun s => rows.any (·.md5 == s.md5))))
   | .zipNM sigs sel => if sel.isEmpty then .ok sigs else filterE (selectSignature · sel) sigs
-  | .smi rows store =>
-    match toPicklist rows with
-    | .ok pl => loadViaPicklist pl (locations rows) store
-    | .error e => .error e
+  | .smi rows store => standaloneSignatures Gen.toPicklistExactCsv rows (locations rows) store
   | .sqlmf all sel store =>
     match filterE (sqlRowPasses · sel) all with
     | .error e => .error e
-    | .ok rows => match toPicklist (rows.map sqlRow) with
+    | .ok rows =>
+      -- `locations()` of a SQLite manifest applies the SQL `WHERE` only, not the picklist
+      match filterE (sqlWherePasses · sel) all with
       | .error e => .error e
-      | .ok pl => match filterE (sqlWherePasses · sel) all with
-        | .error e => .error e
-        | .ok wrows => loadViaPicklist pl (locations wrows) store
+      | .ok wrows => standaloneSignatures Gen.toPicklistExactSql (rows.map sqlRow) (locations wrows) store
   | .sbt leaves pls => .ok (leaves.filter (passesAll pls))
   | .sbtM rows store _ pls =>
     match sbtRows rows pls with
